@@ -27,6 +27,23 @@ def run_plain(arg, opts, size=None, seed=None):
     return rexes_of(x), rec, x
 
 
+def fresh_process_rexes(arg, opts, size, seed):
+    """the expressions the same call gives as the FIRST rexpy call of a fresh interpreter"""
+    import json
+    import subprocess
+    blob = json.dumps({'arg': list(arg), 'opts': opts, 'size': size, 'seed': seed})
+    code = ('import json,sys,io,contextlib\n'
+            'import tdda.rexpy.rexpy as rx\n'
+            'd=json.loads(sys.stdin.read())\n'
+            'size=rx.Size(**d["size"]) if d["size"] else None\n'
+            'with contextlib.redirect_stdout(io.StringIO()):\n'
+            '    x=rx.Extractor(d["arg"], size=size, seed=d["seed"], **d["opts"])\n'
+            'print(json.dumps(list(x.results.rex) if x.results else []))\n')
+    p_ = subprocess.run([lib.PY, '-c', code], input=blob, stdout=subprocess.PIPE, stderr=subprocess.PIPE, text=True,
+                        env=dict(os.environ, PYTHONPATH=lib.REPO, PYTHONHASHSEED='0'), timeout=120)
+    return json.loads(p_.stdout.strip().split('\n')[-1])
+
+
 def big_input(rng, n):
     out = set()
     while len(out) < n:
@@ -128,21 +145,8 @@ def run(ctx):
         # ---- the same call as the FIRST call of a fresh process (nothing cached by earlier calls) gives the same
         #      expressions: results must not depend on what rexpy was asked before
         if it % 50 == 3 and (seed is not None or not sampling):
-            import json
-            import subprocess
-            import sys
             try:
-                blob = json.dumps({'arg': list(arg), 'opts': opts, 'size': size, 'seed': seed})
-                code = ('import json,sys,io,contextlib\n'
-                        'import tdda.rexpy.rexpy as rx\n'
-                        'd=json.loads(sys.stdin.read())\n'
-                        'size=rx.Size(**d["size"]) if d["size"] else None\n'
-                        'with contextlib.redirect_stdout(io.StringIO()):\n'
-                        '    x=rx.Extractor(d["arg"], size=size, seed=d["seed"], **d["opts"])\n'
-                        'print(json.dumps(list(x.results.rex) if x.results else []))\n')
-                p_ = subprocess.run([lib.PY, '-c', code], input=blob, stdout=subprocess.PIPE, stderr=subprocess.PIPE, text=True,
-                                    env=dict(os.environ, PYTHONPATH=lib.REPO, PYTHONHASHSEED='0'), timeout=120)
-                fresh = json.loads(p_.stdout.strip().split('\n')[-1])
+                fresh = fresh_process_rexes(arg, opts, size, seed)
                 ctx.bump('fresh_process_comparisons')
                 if fresh != base:
                     ctx.fail(case, 'as the first call of a fresh process the expressions are %r; in this process, after other '
@@ -206,6 +210,24 @@ def run(ctx):
         if len(ctx.cov['samples']) < 3:
             ctx.sample({'case': case, 'rex': base})
     M.compare_with_model(ctx, cases)
+    # where the model and the implementation disagree on the expressions, look for a concrete failing input:
+    # does this process (after other rexpy calls) give other expressions than a fresh one?
+    odd = [m['case'] for m in ctx.mismatches if m and m.get('layer') == 'extractor']
+    tried = 0
+    for (case, arg, opts, size, x, rec) in cases:
+        if tried >= 4 or not any(case is c for c in odd):
+            continue
+        if case.get('seed') is None and size is not None:
+            continue
+        tried += 1
+        try:
+            fresh = fresh_process_rexes(arg, opts, size, case.get('seed'))
+        except Exception:
+            continue
+        here = rexes_of(x)
+        if fresh != here:
+            ctx.fail(case, 'as the first call of a fresh process the expressions are %r; in this process, after other '
+                     'rexpy calls, they are %r' % (fresh, here))
     # ---- inputs larger than the default sampling thresholds, with a seed
     import tdda.rexpy.rexpy as rx
     for it in range(2 if ctx.quick else 12):
